@@ -92,19 +92,13 @@ Fixpoint digits (b : Z) (s : list Z) (acc : Z) : Z * list Z :=
    the "0" and stops at the 'x' (glibc). *)
 Definition strto_core (base : Z) (s : list Z) : bool * Z * nat :=
   let s1 := skip_ws s in
-  let '(neg, s2) := match s1 with
-                    | 45 :: r => (true, r)
-                    | 43 :: r => (false, r)
-                    | _ => (false, s1)
-                    end in
-  let '(b, s3, pre) :=
-    match s2 with
-    | 48 :: x :: r =>
-        if ((base =? 0) || (base =? 16)) && ((x =? 120) || (x =? 88)) then (16, r, true)
-        else if base =? 0 then (8, s2, false) else (base, s2, false)
-    | 48 :: [] => if base =? 0 then (8, s2, false) else (base, s2, false)
-    | _ => if base =? 0 then (10, s2, false) else (base, s2, false)
-    end in
+  let c := nth 0 s1 0 in                       (* reading the terminator gives 0 *)
+  let neg := c =? 45 in
+  let s2 := if (c =? 45) || (c =? 43) then tl s1 else s1 in
+  let pre := ((base =? 0) || (base =? 16)) && (nth 0 s2 0 =? 48)
+             && ((nth 1 s2 0 =? 120) || (nth 1 s2 0 =? 88)) in
+  let b := if pre then 16 else if base =? 0 then (if nth 0 s2 0 =? 48 then 8 else 10) else base in
+  let s3 := if pre then skipn 2 s2 else s2 in
   let '(mag, rest) := digits b s3 0 in
   if (length rest =? length s3)%nat
   then (if pre then (false, 0, (length s - length s3 - 1)%nat) else (false, 0, 0%nat))
